@@ -15,18 +15,34 @@ import (
 
 // chaosNet is the harness-owned dialer: every connection the client opens is
 // wrapped in a chaosConn with a kill switch; dials can be blocked ("network down").
+var errNetUnreachable = fmt.Errorf("network is unreachable (harness)")
+
 type chaosNet struct {
-	mu    sync.Mutex
-	down  bool
-	upCh  chan struct{}
-	dials int
-	conns []*chaosConn
+	mu      sync.Mutex
+	failing bool // dials fail at once
+	stall   bool // new connections open but swallow everything after the transport header
+	entered int  // dial calls entered
+	failed  int  // dial calls failed by the harness
+	down    bool
+	upCh    chan struct{}
+	dials   int
+	conns   []*chaosConn
 }
 
 func newChaosNet() *chaosNet { return &chaosNet{upCh: make(chan struct{})} }
 
 // Dial implements dcs.DialFunc.
 func (n *chaosNet) Dial(ctx context.Context, network, addr string) (net.Conn, error) {
+	n.mu.Lock()
+	n.entered++
+	failing, stall := n.failing, n.stall
+	if failing {
+		n.failed++
+	}
+	n.mu.Unlock()
+	if failing {
+		return nil, &net.OpError{Op: "dial", Net: network, Err: errNetUnreachable}
+	}
 	for {
 		n.mu.Lock()
 		down, up := n.down, n.upCh
@@ -44,11 +60,26 @@ func (n *chaosNet) Dial(ctx context.Context, network, addr string) (net.Conn, er
 	// up between connect and header would otherwise kill tgtest's accept loop (fake-server artefact).
 	cc := &chaosConn{network: network, addr: addr}
 	cc.cond = sync.NewCond(&cc.mu)
+	if stall {
+		// The connection opens (transport header gets through), then nothing the client
+		// sends arrives: key exchange / initConnection never complete.
+		cc.blackholeAfter = 1
+	}
 	n.mu.Lock()
 	n.dials++
 	n.conns = append(n.conns, cc)
 	n.mu.Unlock()
 	return cc, nil
+}
+
+func (n *chaosNet) SetFailing(v bool) { n.mu.Lock(); n.failing = v; n.mu.Unlock() }
+func (n *chaosNet) SetStall(v bool)   { n.mu.Lock(); n.stall = v; n.mu.Unlock() }
+
+// Stats returns dial calls entered and failed by the harness.
+func (n *chaosNet) Stats() (entered, failed int) {
+	n.mu.Lock()
+	defer n.mu.Unlock()
+	return n.entered, n.failed
 }
 
 func (n *chaosNet) SetDown(down bool) {
@@ -98,17 +129,18 @@ func (n *chaosNet) KillAll() {
 //	Blackhole(): Write reports success but the bytes are lost.
 //	Kill(): closes the socket (both directions).
 type chaosConn struct {
-	network, addr string
-	mu            sync.Mutex
-	cond          *sync.Cond
-	raw           net.Conn // nil until the first Write
-	hold          bool
-	pass          int
-	blackhole     bool
-	killed        bool
-	blocked       int // writes that ever blocked in hold
-	swallowed     int // writes swallowed by the black hole
-	writes        int
+	network, addr  string
+	mu             sync.Mutex
+	cond           *sync.Cond
+	raw            net.Conn // nil until the first Write
+	hold           bool
+	pass           int
+	blackhole      bool
+	blackholeAfter int // >0: become a black hole after that many writes
+	killed         bool
+	blocked        int // writes that ever blocked in hold
+	swallowed      int // writes swallowed by the black hole
+	writes         int
 }
 
 var errChaosClosed = &net.OpError{Op: "write", Net: "tcp", Err: net.ErrClosed}
@@ -137,6 +169,9 @@ func (c *chaosConn) Write(p []byte) (int, error) {
 				c.cond.Wait()
 			}
 		}
+	}
+	if c.blackholeAfter > 0 && c.writes > c.blackholeAfter {
+		c.blackhole = true
 	}
 	if c.blackhole && !c.killed {
 		c.swallowed++
